@@ -317,6 +317,11 @@ pub fn run_program(src: &str, only: Option<(&str, &[Vec<VV>])>, nvec: usize, rng
         Ok(Ok(m)) => Some(vmconv::module(m)),
         _ => None,
     };
+    // text leg (c02/text.rs): the public route's text is the printed tree, and the printed tree reads back as the tree
+    let text_leg = match &emitted {
+        Ok(Ok(m)) => Some(crate::c02::text::check_module(&p.ir, m, hist)),
+        _ => None,
+    };
     match &emitted {
         Ok(Ok(_)) => hist.add("v:exported"),
         Ok(Err(e)) => hist.add(&format!("v:diagnostic:{}", one_line(&format!("{:?}", e)).split('(').nth(1).unwrap_or("?").trim_end_matches(')'))),
@@ -482,6 +487,12 @@ pub fn run_program(src: &str, only: Option<(&str, &[Vec<VV>])>, nvec: usize, rng
         }
         if let Some(u) = &ir_unsupported {
             hist.add(&format!("v:unsupported:{}", u));
+        }
+        // text leg: the emitted TEXT of this function denotes the tree that was just judged
+        if let Some(t) = &text_leg {
+            if let Some(tf) = t.fails_for(emitted_name).into_iter().next() {
+                fails.insert(0, tf);
+            }
         }
         // a difference outside the described classes is never hidden behind a described one
         let first = fails.iter().find(|f| !f.starts_with("class:")).or(fails.first());
@@ -720,6 +731,13 @@ pub fn vex_program(src: &str, only: Option<&[Vec<VV>]>, nvec: usize, rng: &mut R
         }
     };
     hist.add(if obs.starts_with("vast ") { "x:fn:supported" } else { "x:fn:other" });
+    // text leg: the emitted TEXT of this function denotes the tree that was just judged
+    if let Ok(Ok(m)) = &emitted {
+        let t = crate::c02::text::check_module(&p.ir, m, hist);
+        if let Some(tf) = t.fails_for(&emitted_name).into_iter().next() {
+            fails.insert(0, tf);
+        }
+    }
     let first = fails.iter().find(|f| !f.starts_with("class:")).or(fails.first());
     let oracle = match first {
         Some(f) => format!("FAIL:{}", f),
